@@ -39,6 +39,10 @@ func genRT(r *common.Rng, k int) rtCase {
 		rec = wire.RecordByName("Pin")
 	case x < 5:
 		rec = wire.RecordByName("PinOptions")
+	case x < 6:
+		// the add endpoint's query form (field-level model Model/C08Add.lean): every bool/int/string parameter
+		rec = wire.RecordByName("AddParams")
+		return rtCase{rec, wire.FQuery, wire.Gen(r, rec)}
 	default:
 		rec = &wire.Records[r.Intn(len(wire.Records))]
 	}
